@@ -136,7 +136,14 @@ func (r *Run) write(dir string) error {
 		os.Remove(f)
 	}
 	// shards of at most shardSize cases, each evaluated by one coqc process
-	shardSize := 400
+	shardSize := (len(r.Cases) + 15) / 16
+	if shardSize > 400 {
+		shardSize = 400
+	}
+	if shardSize < chunk {
+		shardSize = chunk
+	}
+	shardSize = (shardSize + chunk - 1) / chunk * chunk
 	nshards := 0
 	for start := 0; start < len(r.Cases); start += shardSize {
 		end := min(start+shardSize, len(r.Cases))
